@@ -792,6 +792,12 @@ func ToEntry(n Node) (e *Entry) {
 				// The key of the map used is a synthesised value which is formed by
 				// concatenating the name of this node and the included submodule,
 				// separated by a ":".
+				if a.Module == nil {
+					// The include could not be satisfied; Process has
+					// already reported that.
+					e.addError(fmt.Errorf("%s: included submodule %s was not found", Source(a), a.Name))
+					continue
+				}
 				srcToIncluded := a.Module.Name + ":" + n.NName()
 				includedToSrc := n.NName() + ":" + a.Module.Name
 
